@@ -864,13 +864,32 @@ def World.supOkOf (w : World) (sup : Option Nat) : Bool :=
   | some p => decide ((w.get p).status.rank < Status.draining.rank) && (w.get p).kids.isSome
   | none => true
 
-def World.supOk (w : World) (a : Nat) : Bool := w.supOkOf (w.get a).wantSup
+/-- `target` is `x` or one of its ancestors (walk up the supervisor chain; `fuel` ≥ number of actors). -/
+def World.above (w : World) (fuel : Nat) (x target : Nat) : Bool :=
+  match fuel with
+  | 0 => false
+  | fuel + 1 =>
+    if x = target then true
+    else match (w.get x).sup with
+      | some q => w.above fuel q target
+      | none => false
+
+/-- `SupervisionTree::link(a, p)` is possible on `p`'s side and closes no supervision cycle (repo fix: a link
+whose new supervisor is the child itself or one of its descendants is refused). -/
+def World.supOkFor (w : World) (a p : Nat) : Bool :=
+  w.supOkOf (some p) && !w.above (w.actors.length + 1) p a
+
+def World.supOk (w : World) (a : Nat) : Bool :=
+  match (w.get a).wantSup with
+  | some p => w.supOkFor a p
+  | none => true
 
 def Op.target (w : World) : Op → Option (Nat × AOp)
   | .case => none
-  | .spawn a sup name loc => some (a, .spawn sup name (w.nameFree name) loc (w.supOkOf sup))
+  | .spawn a sup name loc => some (a, .spawn sup name (w.nameFree name) loc
+      (match sup with | some p => w.supOkFor a p | none => true))
   | .spawnInstant a sup name loc => some (a, .spawnInstant sup name (w.nameFree name) loc)
-  | .link a p => some (a, .link p (w.supOkOf (some p)))
+  | .link a p => some (a, .link p (w.supOkFor a p))
   | .unlink a p => some (a, .unlink p)
   | .monitor m a => some (a, .monAdd m)
   | .unmonitor m a => some (a, .monDel m)
